@@ -3,7 +3,7 @@
    the extracted inductives; no Extract Constant. *)
 Require Extraction.
 From Coq Require Import ExtrOcamlBasic.
-From Adept Require Import Scalar GapList Tape Jacobian Buffers View Engines Interp.
+From Adept Require Import Scalar GapList Tape Jacobian Buffers View Engines Interp Storage.
 From AdeptGen Require Import Gen_Engines.
 Extraction "model.ml"
   GapList.init GapList.register1 GapList.registerN GapList.unregisterN GapList.new_recording GapList.step GapList.run
@@ -15,4 +15,5 @@ Extraction "model.ml"
   Gen_Engines.pack_offset Gen_Engines.index Gen_Engines.data_size Gen_Engines.stored Gen_Engines.transpose_engine Gen_Engines.transpose_swaps_LU
   Engines.dense Engines.read_row Engines.assign_row_targets Engines.diag_base Engines.diag_len Engines.sub_base
   Interp.interp1 Interp.interp2d Interp.interp3d Interp.decode
+  Storage.sstep Storage.sinit Storage.read_cells Storage.get_arr Storage.get_sto
   Jacobian.apply_writes Jacobian.omp_blocks Jacobian.J_fwd Jacobian.J_rev.
